@@ -438,7 +438,16 @@ impl StreamSocket {
                     let segment = self.buf.swap_remove(&self.recv_seq).unwrap();
                     permit.send(segment)
                 }
-                Err(Closed(())) => return Err(Protocol::Tcp(Segment::Rst)),
+                Err(Closed(())) => {
+                    // The read half was dropped while the write half is still
+                    // open. A FIN carries no data, so nothing is lost by not
+                    // reading it: do not reset the outbound direction.
+                    if let Some(SequencedSegment::Fin) = self.buf.get(&self.recv_seq) {
+                        self.buf.swap_remove(&self.recv_seq);
+                        return Ok(());
+                    }
+                    return Err(Protocol::Tcp(Segment::Rst));
+                }
                 Err(Full(())) => {
                     self.recv_seq -= 1;
                     break;
